@@ -22,6 +22,596 @@ from vlib import Broken, Failure, Check
 
 DRIVER = "Drivers/IsolationDriver.lean"
 
+# ----------------------------------------------------------------------------- translators (T)
+
+CPP_ARRAYS = {"sources": "sources", "node_indicator": "indicator", "indptr": "indptr", "indices": "indices", "data": "data",
+              "num_connections": "nconn"}
+CPP_VARS = {"source_cntr": "sourceCntr", "source_id": "sourceId", "node_being_explored": "node", "ndx": "ndx",
+            "number_of_connections": "ncon", "val": "val", "col": "col", "i": "i"}
+
+
+def _cpp_tokens(src):
+    import re
+
+    src = re.sub(r"//[^\n]*", " ", src)
+    src = re.sub(r"/\*.*?\*/", " ", src, flags=re.S)
+    src = re.sub(r"^\s*#[^\n]*", " ", src, flags=re.M)
+    src = re.sub(r'"(?:\\.|[^"\\])*"', " 0 ", src)        # string literals (only in get_long_size)
+    tok = re.compile(r"\s*(?:(\d+)|([A-Za-z_]\w*)|(==|!=|<=|>=|\+\+|--|::|&&|\|\||[-+*/%<>=!(){}\[\];,.&]))")
+    out, pos = [], 0
+    while pos < len(src):
+        m = tok.match(src, pos)
+        if not m:
+            if src[pos:].strip() == "":
+                break
+            raise vlib.BrokenTie("network_isolation.cpp: cannot tokenize at %r" % src[pos:pos + 30])
+        pos = m.end()
+        out.append(("num", m.group(1)) if m.group(1) else ("id", m.group(2)) if m.group(2) else ("op", m.group(3)))
+    return out
+
+
+class _CppParser:
+    """recursive descent over the statement forms `check_for_isolated_junctions` uses; anything else is a BrokenTie"""
+
+    def __init__(self, toks):
+        self.t, self.p = toks, 0
+        self.lens, self.params, self.setname, self.itname = {}, [], None, None
+
+    def peek(self, k=0):
+        return self.t[self.p + k] if self.p + k < len(self.t) else ("eof", "")
+
+    def eat(self, val=None, kind=None):
+        tk = self.peek()
+        if (val is not None and tk[1] != val) or (kind is not None and tk[0] != kind):
+            raise vlib.BrokenTie("network_isolation.cpp: expected %r, found %r (token %d)" % (val or kind, tk[1], self.p))
+        self.p += 1
+        return tk[1]
+
+    def at(self, *vals):
+        return all(self.peek(i)[1] == v for i, v in enumerate(vals))
+
+    def function(self, name):
+        while self.p < len(self.t) and not (self.peek()[1] == name and self.peek(1)[1] == "("):
+            self.p += 1
+        if self.p >= len(self.t):
+            raise vlib.BrokenTie("network_isolation.cpp: function %s not found" % name)
+        self.eat(name)
+        self.eat("(")
+        last = None
+        while not self.at(")"):
+            ty = self.eat(kind="id")
+            ptr = False
+            if self.at("*"):
+                self.eat("*")
+                ptr = True
+            nm = self.eat(kind="id")
+            if ptr:
+                if nm not in CPP_ARRAYS:
+                    raise vlib.BrokenTie("network_isolation.cpp: unknown array parameter %s" % nm)
+                self.params.append(CPP_ARRAYS[nm])
+                last = CPP_ARRAYS[nm]
+            else:
+                if last is None:
+                    raise vlib.BrokenTie("network_isolation.cpp: length parameter %s without an array" % nm)
+                self.lens[nm] = last
+                last = None
+            if self.at(","):
+                self.eat(",")
+        self.eat(")")
+        return self.block()
+
+    # ---- statements
+    def block(self):
+        self.eat("{")
+        items = []
+        while not self.at("}"):
+            st = self.statement()
+            if st is not None:
+                items.append(st)
+        self.eat("}")
+        return ("block", self.fold_idioms(items))
+
+    def fold_idioms(self, items):
+        out, i = [], 0
+        while i < len(items):
+            kinds = [x[0] for x in items[i:i + 4]]
+            if kinds[:4] == ["iterEnd", "iterDec", "deref", "erase"]:
+                out.append(("popLast", items[i + 2][1]))
+                i += 4
+            elif kinds[:3] == ["iterBegin", "deref", "erase"]:
+                out.append(("popFirst", items[i + 2][1]))
+                i += 3
+            elif kinds[0] in ("iterEnd", "iterBegin", "iterDec", "deref", "erase"):
+                raise vlib.BrokenTie("network_isolation.cpp: iterator statements %s do not form a take-last / take-first idiom" % kinds)
+            else:
+                out.append(items[i])
+                i += 1
+        return out
+
+    def statement(self):
+        if self.at("{"):
+            return self.block()
+        if self.at("std", "::", "set", "<", "int", ">", "::", "iterator"):
+            self.p += 8
+            self.itname = self.eat(kind="id")
+            self.eat("=")
+            self.eat(self.setname)
+            self.eat(".")
+            which = self.eat(kind="id")
+            self.eat("(")
+            self.eat(")")
+            self.eat(";")
+            if which not in ("end", "begin"):
+                raise vlib.BrokenTie("network_isolation.cpp: iterator initialised with %s()" % which)
+            return ("iterEnd",) if which == "end" else ("iterBegin",)
+        if self.at("std", "::", "set", "<", "int", ">"):
+            self.p += 6
+            self.setname = self.eat(kind="id")
+            self.eat(";")
+            return ("newSet",)
+        if self.at("int") and self.peek(2)[1] == ";":
+            self.eat("int")
+            nm = self.eat(kind="id")
+            self.eat(";")
+            self.var(nm)
+            return None
+        if self.at("for"):
+            self.eat("for")
+            self.eat("(")
+            self.eat("int")
+            v = self.eat(kind="id")
+            self.eat("=")
+            lo = self.expr()
+            self.eat(";")
+            if self.eat(kind="id") != v:
+                raise vlib.BrokenTie("network_isolation.cpp: for-loop condition on another variable")
+            op = self.eat(kind="op")
+            hi = self.expr()
+            if op == "<=":
+                hi = ("add", hi, ("lit", 1))
+            elif op != "<":
+                raise vlib.BrokenTie("network_isolation.cpp: for-loop condition %s" % op)
+            self.eat(";")
+            if self.at("++"):
+                self.eat("++")
+                w = self.eat(kind="id")
+            else:
+                w = self.eat(kind="id")
+                self.eat("++")
+            if w != v:
+                raise vlib.BrokenTie("network_isolation.cpp: for-loop increments another variable")
+            self.eat(")")
+            return ("forUp", self.var(v), lo, hi, self.statement())
+        if self.at("while"):
+            self.eat("while")
+            self.eat("(")
+            c = self.cond()
+            self.eat(")")
+            return ("while", c, self.statement())
+        if self.at("if"):
+            self.eat("if")
+            self.eat("(")
+            c = self.cond()
+            self.eat(")")
+            t = self.statement()
+            e = ("skip",)
+            if self.at("else"):
+                self.eat("else")
+                e = self.statement()
+            return ("ite", c, t, e)
+        if self.at("--") and self.peek(1)[1] == self.itname:
+            self.p += 2
+            self.eat(";")
+            return ("iterDec",)
+        if self.setname and self.at(self.setname, "."):
+            self.p += 2
+            m = self.eat(kind="id")
+            self.eat("(")
+            if m == "insert":
+                e = self.expr()
+                self.eat(")")
+                self.eat(";")
+                return ("insert", e)
+            if m == "erase":
+                self.eat(self.itname)
+                self.eat(")")
+                self.eat(";")
+                return ("erase",)
+            raise vlib.BrokenTie("network_isolation.cpp: set method %s" % m)
+        # assignment
+        nm = self.eat(kind="id")
+        if self.at("["):
+            self.eat("[")
+            ix = self.expr()
+            self.eat("]")
+            self.eat("=")
+            e = self.expr()
+            self.eat(";")
+            if nm != "node_indicator":
+                raise vlib.BrokenTie("network_isolation.cpp: store into %s (only node_indicator is written in the model)" % nm)
+            return ("storeInd", ix, e)
+        self.eat("=")
+        if self.at("*") and self.peek(1)[1] == self.itname:
+            self.p += 2
+            self.eat(";")
+            return ("deref", self.var(nm))
+        e = self.expr()
+        self.eat(";")
+        return ("assign", self.var(nm), e)
+
+    def var(self, nm):
+        if nm not in CPP_VARS:
+            raise vlib.BrokenTie("network_isolation.cpp: unknown local %s" % nm)
+        return CPP_VARS[nm]
+
+    # ---- expressions
+    def cond(self):
+        if self.at("!"):
+            self.eat("!")
+            return ("not", self.cond())
+        if self.setname and self.at(self.setname, ".", "empty", "(", ")"):
+            self.p += 5
+            return ("setEmpty",)
+        a = self.expr()
+        op = self.eat(kind="op")
+        names = {"==": "eq", "!=": "ne", "<": "lt", "<=": "le", ">": "gt", ">=": "ge"}
+        if op not in names:
+            raise vlib.BrokenTie("network_isolation.cpp: comparison %s" % op)
+        return ("cmp", names[op], a, self.expr())
+
+    def expr(self):
+        a = self.primary()
+        while self.at("+"):
+            self.eat("+")
+            a = ("add", a, self.primary())
+        return a
+
+    def primary(self):
+        k, v = self.peek()
+        if k == "num":
+            self.p += 1
+            return ("lit", int(v))
+        if v == "(":
+            self.eat("(")
+            e = self.expr()
+            self.eat(")")
+            return e
+        nm = self.eat(kind="id")
+        if self.at("["):
+            self.eat("[")
+            ix = self.expr()
+            self.eat("]")
+            if nm not in CPP_ARRAYS:
+                raise vlib.BrokenTie("network_isolation.cpp: load from unknown array %s" % nm)
+            return ("load", CPP_ARRAYS[nm], ix)
+        if nm in self.lens:
+            return ("len", self.lens[nm])
+        return ("var", self.var(nm))
+
+
+def _lean_e(e):
+    k = e[0]
+    if k == "lit":
+        return "(.lit %d)" % e[1]
+    if k == "var":
+        return "(.var .%s)" % e[1]
+    if k == "load":
+        return "(.load .%s %s)" % (e[1], _lean_e(e[2]))
+    if k == "add":
+        return "(.add %s %s)" % (_lean_e(e[1]), _lean_e(e[2]))
+    if k == "len":
+        return "(.len .%s)" % e[1]
+    raise vlib.BrokenTie("expression %r" % (e,))
+
+
+def _lean_c(c):
+    if c[0] == "not":
+        return "(.not %s)" % _lean_c(c[1])
+    if c[0] == "setEmpty":
+        return ".setEmpty"
+    return "(.cmp .%s %s %s)" % (c[1], _lean_e(c[2]), _lean_e(c[3]))
+
+
+def _lean_s(st, ind=1):
+    pad = "  " * ind
+    k = st[0]
+    if k == "block":
+        if not st[1]:
+            return "(block [])"
+        return "(block [\n" + ",\n".join(pad + "  " + _lean_s(x, ind + 1) for x in st[1]) + "])"
+    if k == "skip":
+        return ".skip"
+    if k == "newSet":
+        return ".newSet"
+    if k == "assign":
+        return ".assign .%s %s" % (st[1], _lean_e(st[2]))
+    if k == "storeInd":
+        return ".storeInd %s %s" % (_lean_e(st[1]), _lean_e(st[2]))
+    if k == "insert":
+        return ".insert %s" % _lean_e(st[1])
+    if k in ("popLast", "popFirst"):
+        return ".%s .%s" % (k, st[1])
+    if k == "ite":
+        return ".ite %s %s %s" % (_lean_c(st[1]), _lean_s(st[2], ind + 1), _lean_s(st[3], ind + 1))
+    if k == "forUp":
+        return ".forUp .%s %s %s %s" % (st[1], _lean_e(st[2]), _lean_e(st[3]), _lean_s(st[4], ind + 1))
+    if k == "while":
+        return ".while %s %s" % (_lean_c(st[1]), _lean_s(st[2], ind + 1))
+    raise vlib.BrokenTie("statement %r" % (st,))
+
+
+def cpp_shape(path):
+    """(Lean term of the body of check_for_isolated_junctions, parameter arrays in order)"""
+    ps = _CppParser(_cpp_tokens(open(path).read()))
+    body = ps.function("check_for_isolated_junctions")
+    items = body[1]
+    if len(items) != 1:
+        raise vlib.BrokenTie("network_isolation.cpp: %d top-level statements in check_for_isolated_junctions (expected the source loop)" % len(items))
+    return _lean_s(items[0], 1), ps.params
+
+
+# ---- wntr/sim/core.py by ast
+
+_REGS = {"pipes", "pumps", "valves", "links", "junctions", "tanks", "reservoirs", "nodes"}
+
+
+def _reg_of(node):
+    import ast
+
+    txt = ast.unparse(node)
+    if txt.startswith("itertools.chain(") and isinstance(node, ast.Call):
+        out = []
+        for a in node.args:
+            out += _reg_of(a)
+        return out
+    for r in _REGS:
+        if txt == "self._wn.%s()" % r:
+            return [r]
+    return ["other"]
+
+
+def _find_method(tree, name):
+    import ast
+
+    for node in ast.walk(tree):
+        if isinstance(node, ast.ClassDef) and node.name == "WNTRSimulator":
+            for b in node.body:
+                if isinstance(b, ast.FunctionDef) and b.name == name:
+                    return b
+    raise vlib.BrokenTie("WNTRSimulator.%s not found" % name)
+
+
+def _ignorable(st):
+    import ast
+
+    if isinstance(st, ast.Expr) and isinstance(st.value, ast.Constant):
+        return True
+    txt = ast.unparse(st)
+    if txt.startswith("logger.") or txt.startswith("logger_level =") or txt.startswith("diagnostics.run("):
+        return True
+    if isinstance(st, ast.If) and ("logger_level <=" in ast.unparse(st.test) or "logger.getEffectiveLevel()" in ast.unparse(st.test)):
+        return True
+    return False
+
+
+def _match_stmts(stmts, table, what):
+    """greedy: `table` = list of (token, [exact unparsed statements]) and of structural entries
+    (token, header regex, 'for'|'if', sub-table[, else sub-table]); returns the token list"""
+    import ast
+    import re
+
+    out, i = [], 0
+    stmts = [x for x in stmts if not _ignorable(x)]
+    while i < len(stmts):
+        hit = False
+        for ent in table:
+            if len(ent) == 2:
+                tok, texts = ent
+                if [ast.unparse(x) for x in stmts[i:i + len(texts)]] == texts:
+                    if tok:
+                        out.append(tok)
+                    i += len(texts)
+                    hit = True
+                    break
+            else:
+                tok, head, kind, sub = ent[:4]
+                st = stmts[i]
+                if kind == "for" and isinstance(st, ast.For) and not st.orelse:
+                    h = "for %s in %s" % (ast.unparse(st.target), ast.unparse(st.iter))
+                elif kind == "if" and isinstance(st, ast.If):
+                    h = "if " + ast.unparse(st.test)
+                else:
+                    continue
+                if re.fullmatch(head, h):
+                    out.append(tok)
+                    out += _match_stmts(st.body, sub, what)
+                    if kind == "if" and st.orelse:
+                        if len(ent) < 5:
+                            raise vlib.BrokenTie("%s: unexpected else branch of %s" % (what, h))
+                        out.append("else_")
+                        out += _match_stmts(st.orelse, ent[4], what)
+                    out.append("close")
+                    i += 1
+                    hit = True
+                    break
+        if not hit:
+            raise vlib.BrokenTie("%s: statement not understood: %s" % (what, ast.unparse(stmts[i])[:200]))
+    return out
+
+
+def _write(link, v):
+    return ["ndx1, ndx2 = ndx_map[%s]" % link, "data[ndx1] = %d" % v, "data[ndx2] = %d" % v]
+
+
+_CLOSED = "wntr.network.LinkStatus.Closed"
+_UPDATE_TABLE = [
+    (None, ["data = self._internal_graph.data"]),
+    (None, ["ndx_map = self._map_link_to_internal_graph_data_ndx"]),
+    ("forChanges", r"for \(obj, attr\) in self\._change_tracker\.get_changes\(ref_point='graph'\)", "for", [
+        ("ifStatusAttr", r"if 'status' == attr", "if", [
+            ("ifObjClosed", r"if obj\.status == " + _CLOSED.replace(".", r"\."), "if",
+             [("write0", _write("obj", 0))], [("write1", _write("obj", 1))])])]),
+    ("forMulti", r"for \(key, link_list\) in self\._node_pairs_with_multiple_links\.items\(\)", "for", [
+        ("firstLink", ["first_link = link_list[0]"]),
+        ("write0", _write("first_link", 0)),
+        ("forLinkList", r"for link in link_list", "for", [
+            ("ifLinkNotClosed", r"if link\.status != " + _CLOSED.replace(".", r"\."), "if", [("write1", _write("link", 1))])])]),
+    ("resetReference", ["self._change_tracker.reset_reference_point(key='graph')"]),
+]
+_ISOLATED_TABLE = [
+    ("forPrevJ", r"for j in self\._prev_isolated_junctions", "for",
+     [("clearJ", ["junction = self._wn.get_node(j)", "junction._is_isolated = False"])]),
+    ("forPrevL", r"for l in self\._prev_isolated_links", "for",
+     [("clearL", ["link = self._wn.get_link(l)", "link._is_isolated = False"])]),
+    ("onesIndicator", ["node_indicator = np.ones(self._wn.num_nodes, dtype=self._int_dtype)"]),
+    ("idsWhereOne", ["isolated_junction_ids = [i for i in range(len(node_indicator)) if node_indicator[i] == 1]"]),
+    ("newSets", ["isolated_junctions = OrderedSet()", "isolated_links = OrderedSet()"]),
+    ("forIds", r"for j_id in isolated_junction_ids", "for", [
+        ("flagJ", ["j = self._node_id_to_name[j_id]", "junction = self._wn.get_node(j)", "junction._is_isolated = True"]),
+        ("addJ", ["isolated_junctions.add(j)"]),
+        ("linksOfNode", ["connected_links = self._wn.get_links_for_node(j)"]),
+        ("forConnected", r"for l in connected_links", "for", [
+            ("flagL", ["link = self._wn.get_link(l)", "link._is_isolated = True"]),
+            ("addL", ["isolated_links.add(l)"])])]),
+    ("updateModel", ["wntr.sim.hydraulics.update_model_for_isolated_junctions_and_links(self._model, self._wn, self._model_updater, "
+                     "self._prev_isolated_junctions, self._prev_isolated_links, isolated_junctions, isolated_links)"]),
+    ("keepJ", ["self._prev_isolated_junctions = isolated_junctions"]),
+    ("keepL", ["self._prev_isolated_links = isolated_links"]),
+    ("returnCounts", ["return (len(isolated_junctions), len(isolated_links))"]),
+]
+_CALL_ARGS = {"self._source_ids": "sourceIds", "node_indicator": "onesPerNode", "self._internal_graph.indptr": "graphIndptr",
+              "self._internal_graph.indices": "graphIndices", "self._internal_graph.data": "graphData",
+              "self._number_of_connections": "numberOfConnections"}
+
+
+def py_shapes(path):
+    """dict of Lean definitions read off wntr/sim/core.py"""
+    import ast
+
+    tree = ast.parse(open(path).read())
+    out = {}
+    # --- which registries are iterated
+    init = _find_method(tree, "_initialize_internal_graph")
+    it = {"initLinks": None, "ndxLinks": None, "sources": [], "seedJunctions": None, "seedLinks": None}
+    for st in init.body:
+        if isinstance(st, ast.For):
+            body = "\n".join(ast.unparse(x) for x in st.body)
+            if "n_links[" in body and "vals.append" in body:
+                it["initLinks"] = _reg_of(st.iter)
+            elif "ndx_map[link] =" in body:
+                it["ndxLinks"] = _reg_of(st.iter)
+            elif "self._source_ids.append" in body:
+                it["sources"] += _reg_of(st.iter)
+    run = _find_method(tree, "run_sim")
+    for st in run.body:
+        if isinstance(st, ast.Assign) and len(st.targets) == 1:
+            tgt = ast.unparse(st.targets[0])
+            if tgt in ("self._prev_isolated_junctions", "self._prev_isolated_links"):
+                v = st.value
+                ok = (isinstance(v, ast.Call) and ast.unparse(v.func) == "OrderedSet" and len(v.args) == 1
+                      and isinstance(v.args[0], ast.GeneratorExp) and len(v.args[0].generators) == 1)
+                reg = ["other"]
+                if ok:
+                    g = v.args[0].generators[0]
+                    tg = ast.unparse(g.target)
+                    if (len(g.ifs) == 1 and isinstance(g.target, ast.Tuple) and len(g.target.elts) == 2
+                            and ast.unparse(v.args[0].elt) == ast.unparse(g.target.elts[0])
+                            and ast.unparse(g.ifs[0]) == ast.unparse(g.target.elts[1]) + "._is_isolated"):
+                        reg = _reg_of(g.iter)
+                it["seedJunctions" if tgt.endswith("junctions") else "seedLinks"] = reg
+    for k, v in it.items():
+        if v is None:
+            raise vlib.BrokenTie("core.py: could not find the loop / assignment for %s" % k)
+    out["iter"] = "{ " + ", ".join("%s := [%s]" % (k, ", ".join("." + r for r in v)) for k, v in it.items()) + " }"
+    # --- statement skeletons
+    upd = _find_method(tree, "_update_internal_graph")
+    out["updateToks"] = _match_stmts(upd.body, _UPDATE_TABLE, "_update_internal_graph")
+    iso = _find_method(tree, "_get_isolated_junctions_and_links")
+    call = None
+    body = []
+    for st in iso.body:
+        if isinstance(st, ast.Expr) and isinstance(st.value, ast.Call) and ast.unparse(st.value.func) == "check_for_isolated_junctions":
+            call = st.value
+            body.append(ast.parse("__callSearch__").body[0])
+        else:
+            body.append(st)
+    if call is None:
+        raise vlib.BrokenTie("_get_isolated_junctions_and_links: no call of check_for_isolated_junctions")
+    out["isolatedToks"] = _match_stmts(body, _ISOLATED_TABLE + [("callSearch", ["__callSearch__"])], "_get_isolated_junctions_and_links")
+    out["callArgs"] = [_CALL_ARGS.get(ast.unparse(a), "other") for a in call.args] + ["other"] * len(call.keywords)
+    # --- the loop body of run_sim
+    loop = [st for st in run.body if isinstance(st, ast.While)]
+    if len(loop) != 1:
+        raise vlib.BrokenTie("run_sim: expected one while loop")
+    toks = []
+
+    def walk(stmts):
+        for st in stmts:
+            txt = ast.unparse(st)
+            if isinstance(st, ast.If):
+                t = ast.unparse(st.test)
+                head = {"not resolve": "ifNotResolve", "solver_status == 0": "ifFailed",
+                        "self._change_tracker.changes_made(ref_point='graph')": "ifChanged",
+                        "isinstance(self._report_timestep, (float, int))": "ifReportGrid",
+                        "self._report_timestep.upper() == 'ALL'": "ifReportAll"}.get(t)
+                if head:
+                    toks.append(head)
+                walk(st.body)
+                if head:
+                    toks.append("close")
+                walk(st.orelse)
+                continue
+            if isinstance(st, (ast.For, ast.While, ast.With, ast.Try)):
+                raise vlib.BrokenTie("run_sim loop body: unexpected compound statement %s" % txt[:80])
+            if isinstance(st, ast.Break):
+                toks.append("brk")
+            elif isinstance(st, ast.Continue):
+                toks.append("cont")
+            elif txt == "resolve = True":
+                toks.append("resolveOn")
+            elif txt == "resolve = False":
+                toks.append("resolveOff")
+            elif "_compute_next_timestep_and_run_presolve_controls_and_rules(" in txt:
+                toks.append("presolve")
+            elif "_run_feasibility_controls(" in txt:
+                toks.append("feasibility")
+            elif "_update_internal_graph(" in txt:
+                toks.append("updateGraph")
+            elif "_get_isolated_junctions_and_links(" in txt:
+                toks.append("getIsolated")
+            elif "_solver_helper(" in txt:
+                toks.append("backupSolve" if "self._backup_solver," in txt else "solve")
+            elif "store_results_in_network(" in txt:
+                toks.append("store")
+            elif "_run_postsolve_controls(" in txt:
+                toks.append("postsolve")
+            elif "save_results(" in txt:
+                toks.append("save")
+            elif "_is_isolated" in txt or "_prev_isolated" in txt or "_internal_graph" in txt:
+                raise vlib.BrokenTie("run_sim loop body touches the isolation state directly: %s" % txt[:120])
+
+    walk(loop[0].body)
+    out["loopToks"] = toks
+    return out
+
+
+def write_shape(repo):
+    body, params = cpp_shape(os.path.join(repo, "wntr/sim/network_isolation/network_isolation.cpp"))
+    py = py_shapes(os.path.join(repo, "wntr/sim/core.py"))
+    lst = lambda xs: "[" + ", ".join("." + x for x in xs) + "]"
+    txt = ("-- GENERATED by harness/props/c09.py from wntr/sim/network_isolation/network_isolation.cpp (hand-written tokenizer +\n"
+           "-- recursive descent) and wntr/sim/core.py (Python ast). Do not edit.\n"
+           "import WntrModel.Model.IsolationProg\nnamespace Wntr.Isolation.Gen\nopen Wntr.Isolation.Prog\n\n"
+           "/-- the body of `check_for_isolated_junctions` -/\ndef cppSearch : S :=\n  %s\n\n"
+           "/-- its array parameters, in order -/\ndef cppParams : List Arr := %s\n\n"
+           "/-- the arguments `_get_isolated_junctions_and_links` passes, in order -/\ndef callArgs : List PyArg := %s\n\n"
+           "/-- registry generators iterated by `_initialize_internal_graph` and by the head of `run_sim` -/\ndef iter : Iter :=\n  %s\n\n"
+           "def updateToks : List PyTok := %s\n\ndef isolatedToks : List PyTok := %s\n\n"
+           "/-- the `while True:` body of `run_sim` -/\ndef loopToks : List LoopTok := %s\n\nend Wntr.Isolation.Gen\n"
+           % (body, lst(params), lst(py["callArgs"]), py["iter"], lst(py["updateToks"]), lst(py["isolatedToks"]), lst(py["loopToks"])))
+    vlib.write_if_changed(os.path.join(vlib.LEAN, "WntrModel/Gen/IsolationShape.lean"), txt)
+
+
 # ----------------------------------------------------------------------------- generators
 
 
@@ -879,7 +1469,7 @@ class C09(Check):
     pid = "C09"
     level = "proof"
     prop_modules = ["WntrModel.Props.C09"]
-    extra_targets = ["WntrModel.Model.Isolation"]
+    extra_targets = ["WntrModel.Model.Isolation", "WntrModel.Model.IsolationStatic", "WntrModel.Model.IsolationRun"]
     manifest = dict(
         category="proof",
         text="Lean theorems for every finite graph / multigraph and every history of status changes: the transliterated C++ search "
@@ -915,7 +1505,7 @@ class C09(Check):
     ]
 
     def translate(self, ctx):
-        return
+        write_shape(vlib.REPO)
 
     # ------------------------------------------------------------------ (a)
     def corr_csr(self, ctx, cases, failures, broken):
